@@ -218,8 +218,17 @@ class ShockPlugin(SlotPlugin):
             if isinstance(m, IndexMarket):
                 continue
             f = mon.sim.fundamentals
-            if f.volatilities.get(m.market_id, 1.0) == 0.0:
-                self.zero_vol[m.market_id] = f.drifts.get(m.market_id, 0.0)
+            # the *configured* parameters (defaults 0), not what the fundamentals object was told
+            if m.name in cfg and isinstance(cfg[m.name], dict):
+                st_ = resolved_settings(cfg, m.name)
+                vol_, drift_ = float(st_.get("fundamentalVolatility", 0.0)), float(st_.get("fundamentalDrift", 0.0))
+                if m.market_id in f.volatilities and (f.volatilities[m.market_id] != vol_ or f.drifts.get(m.market_id) != drift_):
+                    mon.viol(self.label, "fundamental_parameters_differ_from_config",
+                             {"market": m.name, "configured": [drift_, vol_], "registered": [f.drifts.get(m.market_id), f.volatilities[m.market_id]]})
+            else:
+                vol_, drift_ = f.volatilities.get(m.market_id, 1.0), f.drifts.get(m.market_id, 0.0)
+            if vol_ == 0.0:
+                self.zero_vol[m.market_id] = drift_
 
     def _funds(self, mon):
         return {m.market_id: m.get_fundamental_price() for m in mon.markets}
